@@ -35,6 +35,15 @@ CHECKS["C03"] = dict(
     note="Bounds: multi-output lists of <=2 (quick) / <=3 (thorough) elements; timeouts injected as the exception the alarm handler "
          "raises; outside: real signal delivery, BlacklistedSpec, other graph shapes (varied in C01/C04).")
 
+CHECKS["C04"] = dict(
+    text="Bounded model checking of the real run_components / run / get_subgraphs / run_incremental / run_all code: for every "
+         "component graph (<=3 quick, <=4 thorough), every requested key subset and outcome assignment, the final instances (symbolic "
+         "int arithmetic, compared by the solver), recorded failures and missing-dependency reports of every linear extension, every "
+         "global set order (hash-seed model), every sub-graph split (own or shared broker) and every pool task order must equal "
+         "those of a single pass; get_subgraphs must partition exactly the requested components into connected classes.",
+    note="Set order modelled as one engine-chosen total order per run (N! schedules); the pool is a stub running whole tasks in any "
+         "order. Outside: pre-emption between real threads inside a task, evaluators.py beyond dr.run/run_all.")
+
 NOT_APPLICABLE = {
 }
 
